@@ -18,6 +18,7 @@ structure Oracles where
   hmac : Std.HashMap String Bytes := {}
   pkv : Std.HashMap String Bool := {}
   pks : Std.HashMap String (Option Bytes) := {}
+  keyorc : Std.HashMap String (Option (Nat × Bool)) := {}
 
 structure CkSlot where
   ck : Checker
@@ -34,6 +35,7 @@ structure St where
   cks : Std.HashMap Nat CkSlot := {}
   bls : Std.HashMap Nat BlSlot := {}
   lastTok : Option Bytes := none
+  sets : Std.HashMap Nat KeySet := {}
   orc : Oracles := {}
 
 def provName : Provider → String | .openssl => "openssl" | .gnutls => "gnutls"
@@ -53,6 +55,21 @@ def mkEnv (st : St) : Env :=
             pkVerify := fun p k a m s => (st.orc.pkv.get? (pkvKey p k.id a m s)).getD false,
             pkSign := fun _ _ _ _ => some sigPlaceholder },
     prov := st.prov, now := st.now }
+
+/-- provider acceptance of key material, from the `oracle keyorc …` lines; a query that is not in
+the table shows up as the impossible size 999999 (a harness gap, never a verdict) -/
+def keyOracle (st : St) : KeyOracle :=
+  let look (k : String) : Option (Nat × Bool) := (st.orc.keyorc.get? k).getD (some (999999, true))
+  { rsa := fun pss n e comps =>
+      look (s!"rsa {if pss then 1 else 0} {hex n} {hex e}" ++ (match comps with | some cs => String.join (cs.map fun c => " " ++ hex c) | none => "")),
+    ec := fun crv x y d => look (s!"ec {hex crv} {hex x} {hex y}" ++ (match d with | some dv => " " ++ hex dv | none => "")),
+    okp := fun crv priv b => look s!"okp {hex crv} {if priv then 1 else 0} {hex b}" }
+
+def showItem : Option Item → String
+  | none => "none"
+  | some it =>
+    let octS := if it.kty = 4 ∧ !it.oct.isEmpty then hex it.oct else "NULL"
+    s!"kty={it.kty} alg={it.alg.ord} bits={it.bits} priv={if it.isPrivate then 1 else 0} err={if it.error then 1 else 0} emsg={if it.msg then 1 else 0} kid={hexOpt it.kid} use={it.use} ops={it.keyOps} crv={hexOpt it.curve} pem={if it.hasPem then 1 else 0} oct={octS}"
 
 def loadStrictFn (st : St) : Bytes → Option Json := fun b => (st.orc.loadStrict.get? (hex b)).getD none
 
@@ -339,6 +356,42 @@ def step (st : St) (line : String) : St × String :=
                  s!"rc={rc} err={b01 ck.error} msg={b01 ck.msg.isSome} cb=[{obs}]")
           | ["err"] => (st, s!"err={b01 slot.ck.error} msg={b01 slot.ck.msg.isSome}")
           | ["errclr"] => (put slot.ck.errorClear, "ok")
+          | _ => (st, "badop")
+  | ["oracle", "keyorc", k, v] =>
+    -- k has its spaces written as '+'
+    ({ st with orc := { st.orc with keyorc := st.orc.keyorc.insert (k.replace "+" " ") (if v = "none" then none else match v.splitOn ":" with
+      | [b] => b.toNat?.map fun n => (n, true)
+      | [b, _] => b.toNat?.map fun n => (n, false)
+      | _ => none) } }, "ok")
+  | "jwks" :: sidx :: rest =>
+    match sidx.toNat? with
+    | none => (st, "badslot")
+    | some si =>
+      match rest with
+      | "load" :: doc :: _ =>
+        let cur := (st.sets.get? si).getD {}
+        let parsed : Option Json := if doc = "none" then none else dec doc
+        let s' := jwksProcess (keyOracle st) cur parsed
+        ({ st with sets := st.sets.insert si s' }, s!"err={b01 s'.error} emsg={b01 s'.msg} n={s'.count}")
+      | _ =>
+        match st.sets.get? si with
+        | none => (st, "noset")
+        | some ks =>
+          let put (k : KeySet) : St := { st with sets := st.sets.insert si k }
+          match rest with
+          | ["item", i] => (st, showItem (ks.get (i.toNat?.getD 0)))
+          | ["count"] => (st, toString ks.count)
+          | ["free", i] => let (k, r) := ks.free (i.toNat?.getD 0); (put k, toString r)
+          | ["freebad"] => let (k, r) := ks.freeBad; (put k, toString r)
+          | ["freeall"] => let (k, r) := ks.freeAll; (put k, toString r)
+          | ["errany"] => (st, toString ks.errorAny)
+          | ["err"] => (st, s!"err={b01 ks.error} emsg={b01 ks.msg}")
+          | ["errclr"] => (put ks.errorClear, "ok")
+          | ["find", h] =>
+            match unhexB h with
+            | some kid => (st, match ks.findByKid kid with | some i => toString i | none => "-1")
+            | none => (st, "badop")
+          | ["del"] => ({ st with sets := st.sets.erase si }, "ok")
           | _ => (st, "badop")
   | "bl" :: c :: rest =>
     match c.toNat? with
